@@ -110,3 +110,8 @@ Print Assumptions C02_formula_nested_atoms.
 Theorem C02_run_inv : forall E ops s s', Inv s -> run E s ops = Some s' -> Inv s'.
 Proof. exact run_inv. Qed.
 Print Assumptions C02_run_inv.
+
+(* "an ion weighing its atom less charge electron masses": the constant in constants.py is the electron mass *)
+Theorem C02_electron_mass_is_reference : electron_mass_ok ME = true.
+Proof. exact electron_mass_is_reference. Qed.
+Print Assumptions C02_electron_mass_is_reference.
